@@ -16,7 +16,28 @@ package config
 
 //@ func (*Dcp).GetCouchbaseMembership
 //@ props C17
-//@ trusted
-//@ requires c != nil
-//@ ensures result != nil && fresh(result)
+//@ merge
+//@ requires c != nil && logger.Log != nil
+//@ let cfg = c.Dcp.Group.Membership.Config
+//@ ensures.fresh[C17] result != nil && fresh(result)
+//@ ensures.expiry_default[C17] !has(cfg, "expirySeconds") ==> result.ExpirySeconds == 120
+//@ ensures.heartbeatInterval[C17] result.HeartbeatInterval == ite(has(cfg, "heartbeatInterval"), parseduration(cfg["heartbeatInterval"]), 10000000000)
+//@ ensures.heartbeatToleranceDuration[C17] result.HeartbeatToleranceDuration == ite(has(cfg, "heartbeatToleranceDuration"), parseduration(cfg["heartbeatToleranceDuration"]), 60000000000)
+//@ ensures.monitorInterval[C17] result.MonitorInterval == ite(has(cfg, "monitorInterval"), parseduration(cfg["monitorInterval"]), 30000000000)
+//@ ensures.timeout[C17] result.Timeout == ite(has(cfg, "timeout"), parseduration(cfg["timeout"]), 30000000000)
+//@ panics.unparsable[C17] (has(cfg, "expirySeconds") && !parseuintok(cfg["expirySeconds"], 10, 32)) || (has(cfg, "heartbeatInterval") && !parsedurationok(cfg["heartbeatInterval"])) || (has(cfg, "heartbeatToleranceDuration") && !parsedurationok(cfg["heartbeatToleranceDuration"])) || (has(cfg, "monitorInterval") && !parsedurationok(cfg["monitorInterval"])) || (has(cfg, "timeout") && !parsedurationok(cfg["timeout"]))
 //@ modifies nothing
+
+//@ func (*Dcp).GetKubernetesLeaderElector
+//@ props C17
+//@ merge
+//@ requires c != nil && logger.Log != nil
+//@ let cfg = c.LeaderElection.Config
+//@ ensures.fresh[C17] result != nil && fresh(result)
+//@ ensures.names[C17] result.LeaseLockName == cfg["leaseLockName"] && result.LeaseLockNamespace == cfg["leaseLockNamespace"]
+//@ ensures.leaseDuration[C17] result.LeaseDuration == ite(has(cfg, "leaseDuration"), parseduration(cfg["leaseDuration"]), 8000000000)
+//@ ensures.renewDeadline[C17] result.RenewDeadline == ite(has(cfg, "renewDeadline"), parseduration(cfg["renewDeadline"]), 5000000000)
+//@ ensures.retryPeriod[C17] result.RetryPeriod == ite(has(cfg, "retryPeriod"), parseduration(cfg["retryPeriod"]), 1000000000)
+//@ panics.missing_or_unparsable[C17] !has(cfg, "leaseLockName") || !has(cfg, "leaseLockNamespace") || (has(cfg, "leaseDuration") && !parsedurationok(cfg["leaseDuration"])) || (has(cfg, "renewDeadline") && !parsedurationok(cfg["renewDeadline"])) || (has(cfg, "retryPeriod") && !parsedurationok(cfg["retryPeriod"]))
+//@ modifies nothing
+
